@@ -7,7 +7,7 @@
    The main statement holds for every class and every input (no domain restriction since the
    empty-string alias was repaired in /repo 7108448). *)
 From Coq Require Import List String Ascii ZArith Bool.
-From Verif Require Import Regex PyK PyK_strat PyK_alias FieldDecl FieldDeclProofs KeyModel KeyImpl KeyProofs KeyDecl KeyCfg KeyNested KeyRewrite KeyHook KeyDc KeyDcDecl KeyDeep KeyDeepHook PyK_clsdiscr KeyDiscr KeyHookLookup.
+From Verif Require Import Regex PyK PyK_strat PyK_alias FieldDecl FieldDeclProofs KeyModel KeyImpl KeyProofs KeyDecl KeyCfg KeyNested KeyRewrite KeyHook KeyDc KeyDcDecl KeyDeep KeyDeepHook PyK_clsdiscr KeyDiscr KeyHookLookup KeyFull.
 From VerifGen Require Import K4 K5 K109a K109b.
 Import ListNotations.
 Open Scope string_scope.
@@ -417,6 +417,33 @@ Example C09_nonvacuous_hook_lookup :
   /\ get_class_that_defines_method A_PRE (cls_obj_h [None; None] true) = Ok (class_of_entry mixin_entry)
   /\ impl_hooked_code [ha; hb; None] true ls None [(KeyS "legacy", 1%Z)] = Ok (OInst [("x", Some (KeyS "ax", 1%Z))])
   /\ impl_hooked_code [ha; None; None] false ls None [(KeyS "legacy", 1%Z)] = Ok (OExtra [KeyS "legacy"]).
+Proof. repeat split; vm_compute; reflexivity. Qed.
+
+(* ---- all decisions of _add_unpack_method_lines in the order the code takes them, each through a translated
+   function (own discriminator -> dispatcher; declared hook; get_config; __get_field_alias; discriminator of the
+   MRO + allowed_keys; key_plan): KEYMODEL of the class the hierarchy denotes, on the mapping the nearest hook
+   returns, the nearest class-level discriminator accepted -- for every hierarchy, hook assignment and input ---- *)
+Theorem C09_from_class : forall r hooks mixin d,
+  impl_from_class r hooks mixin d
+  = Ok (match own_discr r with
+        | Some _ => Dispatcher
+        | None => Body (keymodel (class_of (rev (map fst r)) (nearest_discr r))
+                                 (apply_hook (declared_hook (rev hooks)) d))
+        end).
+Proof. exact impl_from_class_keymodel. Qed.
+Print Assumptions C09_from_class.
+
+(* A: Config(discriminator on "t"), hook renames "legacy" -> "ax".  K(A): Config(forbid_extra_keys, aliases x -> ax).
+   K.from_dict({"legacy": 1, "t": 2}) reads x from the renamed key and accepts A's tag key; "u" is extra;
+   A itself is a dispatcher (its hook is not even consulted) *)
+Example C09_nonvacuous_from_class :
+  let a := (mkL [] (Some (mkCD false false None None None)), DObj (Some "t")) in
+  let k := (mkL [(mkF "x" None None false, true)] (Some (mkCD false false (Some [("x", "ax")]) None (Some true))), DAbsent) in
+  let hooks := [Some [HRename (KeyS "legacy") (KeyS "ax")]; None] in
+  impl_from_class [k; a] hooks true [(KeyS "legacy", 1%Z); (KeyS "t", 2%Z)] = Ok (Body (OInst [("x", Some (KeyS "ax", 1%Z))]))
+  /\ impl_from_class [k; a] hooks true [(KeyS "legacy", 1%Z); (KeyS "u", 2%Z)] = Ok (Body (OExtra [KeyS "u"]))
+  /\ impl_from_class [k; a] [None; None] true [(KeyS "legacy", 1%Z); (KeyS "t", 2%Z)] = Ok (Body (OExtra [KeyS "legacy"]))
+  /\ impl_from_class [a] [Some [HDrop (KeyS "t")]] true [(KeyS "t", 2%Z)] = Ok Dispatcher.
 Proof. repeat split; vm_compute; reflexivity. Qed.
 
 (* ---- arbitrary MROs (diamonds): a model of CPython's dataclass walk and of get_type_hints ---- *)
